@@ -23,6 +23,7 @@ import PoetryVerif.Proofs.PyConvNotIn
 import PoetryVerif.Proofs.VRangeOps
 import PoetryVerif.Proofs.MarkerProj
 import PoetryVerif.Proofs.PyConvFullLists
+import PoetryVerif.Proofs.PyConvNestedBoundary
 import PoetryVerif.Proofs.PyConvWildNe
 
 set_option linter.unusedSimpArgs false
@@ -475,14 +476,30 @@ theorem pyConstraint_exact_validate {E : Env} {ex : List String} (hX : E.extras 
     M.validate E m = .ok (g.allowsPlain (pyV X Y Z)) :=
   gpc_exact_validate_fullLs hX hE m g hg hvars h
 
-/-- **`create_nested_marker` then `parse_marker` and `validate`**, for a Python range of the domain whose bounds have
-two or three components (`PyPrec2`): the marker read back lies in the domain and validates, on the environment of
-`X.Y.Z`, to exactly `allows(X.Y.Z)`. -/
-theorem createNested_poetry {E : Env} {ex : List String} (hX : E.extras = some ex) {X Y Z : Nat}
-    (hE : EnvPy E X Y Z) (c : VC) (hd : PyDomVC c = true) (hp2 : PyPrec2 c) (txt : String) (m : M)
-    (ht : createNestedMarker "python_version" c = .ok txt) (hm : parseMarker txt = .ok m) :
-    M.Good (FullLeaf E) m ∧ M.validate E m = .ok (c.allowsPlain (pyV X Y Z)) := by
-  obtain ⟨g, e⟩ := createNested_full hX hE c hd hp2 txt m ht hm
-  exact ⟨g, by rw [M.validate_eq_sem E m (M.good_mono (fun l hl => fullLeaf_evaluable hX hE hl) m g), e]⟩
+/-- **`create_nested_marker` then `parse_marker` and `validate`, on its decidable domain** `nestedDomain c`
+(`PyDomVC c` and no bound with a single component): on every environment of interpreter `X.Y.Z` — nothing else is
+assumed of the environment — the marker read back has python leaves only and validates to exactly `allows(X.Y.Z)`.
+
+This is the boundary of `C11_createNested_poetry_full_statement` as proved.  Outside it:
+* a single version of precision below 3 (outside `PyDomVC`): the statement is false,
+  `counterexample_single_version_precision_lt_3`;
+* a range with a one-component bound (`>=3`, `^3`; inside `PyDomVC`): `python_version >= "3"` / `< "4"` leaves, for
+  which C07 has no leaf specification; the reference value of the printed text is exact (`createNested_exact`), the
+  statement through `parse_marker` is `createNested_poetry_partial` (relative to the leaf specification), and the
+  correspondence finds no disagreement there;
+* dev-release bounds (wildcards `X.*`, `X.Y.*`, `!=X.Y.*`; outside `PyDomVC`): `createNested_wildcard_partial`,
+  `createNested_wildcard1_partial`, `createNested_excluded_wildcard_partial`, relative to the leaf specification. -/
+theorem createNested_poetry {E : Env} {X Y Z : Nat} (hE : EnvPy E X Y Z) (c : VC) (hdom : nestedDomain c = true)
+    (txt : String) (m : M) (ht : createNestedMarker "python_version" c = .ok txt) (hm : parseMarker txt = .ok m) :
+    M.Good PyLeaf m ∧ M.validate E m = .ok (c.allowsPlain (pyV X Y Z)) :=
+  createNested_domain hE c hdom txt m ht hm
+
+/-- the domain is decidable: `>=3.8,<3.11` and `>=3.8.1 || <3.0` are inside, `>=3` is not -/
+example : nestedDomain (.single (.rng ⟨some (finalV [3, 8]), some (finalV [3, 11]), true, false⟩)) = true ∧
+    nestedDomain (.union [.rng ⟨none, some (finalV [3, 0]), false, false⟩,
+      .rng ⟨some (finalV [3, 8, 1]), none, true, false⟩]) = true ∧
+    nestedDomain (.single (.rng ⟨some (finalV [3]), none, true, false⟩)) = false ∧
+    PyDomVC (.single (.rng ⟨some (finalV [3]), none, true, false⟩)) = true := by
+  refine ⟨by decide, by decide, by decide, by decide⟩
 
 end Poetry.C11
